@@ -298,8 +298,13 @@ def rule_depth(ctx):
               "every spelling tabulated in DEPTH_UNITS is recognised (ASCII spellings in any case) and none is recognised as another unit",
               "; ".join(list(dict.fromkeys(problems))[:4]))
     # conflict -> None ; single -> that unit
-    txt = ast.unparse(fr.node)
-    ok = "len(matches) == 1" in txt and "self.index_unit = None" in txt
+    single = [x for x in walk_shallow(fr.node) if isinstance(x, ast.If) and isinstance(x.test, ast.Compare) and len(x.test.ops) == 1
+              and isinstance(x.test.ops[0], ast.Eq) and isinstance(x.test.left, ast.Call) and ast.unparse(x.test.left.func) == "len"
+              and isinstance(x.test.comparators[0], ast.Constant) and x.test.comparators[0].value == 1
+              and any(isinstance(a, ast.Assign) and any(isinstance(t, ast.Attribute) and t.attr == "index_unit" for t in a.targets) for a in x.body)]
+    nones = [a for a in walk_shallow(fr.node) if isinstance(a, ast.Assign) and any(isinstance(t, ast.Attribute) and t.attr == "index_unit" for t in a.targets)
+             and isinstance(a.value, ast.Constant) and a.value.value is None]
+    ok = bool(single) and len(nones) >= 2
     ctx.check(ok, "EX.DEPTH-TABLE", LF + ".read#conflict", fr, loop, "one match defines the unit, none or several leave it undefined",
               "the index unit is no longer left undefined when STRT/STOP/STEP and the first curve conflict")
     ctx.floor("EX.DEPTH-TABLE", 3)
